@@ -335,14 +335,15 @@ def _cached(f):
 
 @_cached
 def chain_items(tier):
-    """(joints, frames, inertia, state index | 'E' | 'G'): 'G' is the seed-generic state, 'E' the energy run."""
+    """(joints, frames, inertia, state index | 'E' | 'G' | 'T'): 'G' is the seed-generic state, 'T' the state with joint values
+    of a few 1e-5 rad, 'E' the energy run."""
     out = []
     combos = [(f, i) for f in dynlib.FRAME_SCHEMES for i in dynlib.INERTIA_SCHEMES]
     for n in (1, 2, 3):
         for ci, joints in enumerate(itertools.product(range(dynlib.NJ), repeat=n)):
             cfg = combos if (tier == "thorough" or n < 3) else [(dynlib.FRAME_SCHEMES[ci % 4], dynlib.INERTIA_SCHEMES[(ci // 4) % 3])]
             for f, i in cfg:
-                for s in list(range(4 ** n)) + ["G", "E"]:
+                for s in list(range(4 ** n)) + ["G", "T", "E"]:
                     out.append((joints, f, i, s))
     return out
 
@@ -356,7 +357,7 @@ def window_items(tier):
             for j in range(4 if tier == "thorough" else 1):
                 f, i = dynlib.FRAME_SCHEMES[(w + j) % 4], dynlib.INERTIA_SCHEMES[(w + 2 * j) % 3]
                 states = [s for s in range(2 ** n) if tier == "thorough" or n <= 5 or s % 4 == k % 4]
-                for s in states + ["G", "E"]:
+                for s in states + ["G", "T", "E"]:
                     out.append((tuple(dynlib.window_joints(n, k)), f, i, s))
     return out
 
@@ -386,6 +387,8 @@ def chain(joints, f, i, seed):
 def chain_state(ch, s, V, windows):
     if s == "G":
         return V.q_gen.copy()
+    if s == "T":        # joint values of a few 1e-5 rad: above the exponential's 1e-6 cut-off, below any wider 'parked at home' test
+        return np.array([5e-5, -8e-5, 0.3, 7e-5, -1.2, 3e-5, 0.3])[:ch.n].copy()
     return dynlib.state(dynlib.Q_WINDOW if windows else dynlib.Q_VALUES, ch.n, s)
 
 
